@@ -61,8 +61,8 @@ claim('C05', 'proof', K1 + '; ' + K2 + '; ' + BD,
       'K1 (all inputs): step refinement of LineProgram._decode_line_program against the DWARF 6.2.5 state machine: after every iteration each register, the emitted row and the next instruction offset are what the specification prescribes (special, standard incl. unknown standard opcodes skipped by standard_opcode_lengths, extended opcodes, VLIW op_index); K2: line program header v2-v5 incl. entry formats, file entries, form table',
       'header/extent handling in DWARFInfo._parse_line_program_at_offset and the v5 directory/file tables are covered by the bounded differential only; the fold over the whole program follows from the step lemma by induction on the loop (composition argument in DESIGN 4, not machine checked); one recorded known finding (is_stmt of the end_sequence row)')
 claim('C06', 'proof', K1 + '; ' + K2 + '; ' + BD,
-      'K2: CIE (v1/3/4) and FDE headers over every configuration; K1: CIE lookup for an FDE (_parse_cie_for_fde: pointer arithmetic for .debug_frame and .eh_frame, cache), instruction naming; bounded differential: entry walk, every CFA opcode x configuration, pointer encodings, augmentation, and the decoded table incl. register order against a DWARF 6.4.2 interpreter',
-      '_parse_entry_at is an assumed contract at the K1 call site; _parse_instructions and _decode_CFI_table are covered by the bounded differential only')
+      'K2: CIE (v1/3/4) and FDE headers over every configuration; K1 (all inputs): instruction decoding (_parse_instructions by step refinement against the operand-kind table of 6.4.2/7.24: opcode, operand count, operand values by kind, next offset, unknown opcodes rejected, walk up to end_offset), CIE lookup for an FDE (_parse_cie_for_fde: pointer arithmetic for .debug_frame and .eh_frame, position preserved), instruction naming; bounded differential: entry walk, pointer encodings, augmentation, and the decoded table incl. register order against a DWARF 6.4.2 interpreter',
+      '_parse_entry_at is an assumed contract at the K1 call site; _decode_CFI_table (the rule interpreter: a dictionary keyed by register numbers and names) and the entry walk are covered by the bounded differential only (every CFA opcode x configuration)')
 claim('C07', 'proof', K1 + '; ' + K2,
       'K2: v5 list unit headers, every DW_LLE/DW_RLE entry layout, counted location description, locview pair. K1 (all inputs): pre-v5 range and location list walks return exactly the encoded entries up to the (0,0) terminator (kind, begin/end or base address, expression bytes, offset, length); every v5 entry translator and the translation of a whole v5 list (map rule, table dispatch proved per kind) with indexed addresses resolved through the unit\'s address table (get_addr checked); access by section offset and by index through the offset table (entry width from the unit\'s format); unit blocks of the v5 sections and the raw lists of a block; location view pairs; section pair dispatch by unit version; attribute classification',
       'iter_range_lists / iter_location_lists (enumeration by scanning the debugging entries) and iter_CUs of the list classes are not under contract; DIE.__init__ assumed for the root entry that carries the base attributes; decoded v5 entries are the K1 abstraction of the K2-checked layout (count/fields as functions of bytes and offset)')
